@@ -347,6 +347,8 @@ class Fn:
                 return f"{e.value.id}.{e.attr}"
             if self.ty(e.value) == "Rhs" and e.attr == "tzinfo":
                 return f"(Rhs.tzinfo {self.atom(e.value)})"
+            if _is_self_attr(e.value) and e.value.attr == "_storage" and e.attr in ("can_read", "can_write", "can_append"):
+                return f"(Storage.{e.attr} self._storage)"
             if self.ty(e.value) == "IndexImpl.Self" and e.attr == "valid":
                 return f"(← IndexImpl.valid {self.atom(e.value)})"
             if self.ty(e.value) == "IndexResult" and e.attr in ("_items", "items"):
@@ -405,7 +407,7 @@ class Fn:
             return f"(if {self.cond(e.test)} then {wrapped} else none)"
         if isinstance(e, ast.IfExp):
             return f"(← (if {self.cond(e.test)} then {self.exdo(e.body)} else {self.exdo(e.orelse)}))"
-        if isinstance(e, ast.ListComp):
+        if isinstance(e, (ast.ListComp, ast.GeneratorExp)):
             return self.listcomp(e)
         if isinstance(e, ast.DictComp):
             if len(e.generators) != 1 or e.generators[0].ifs:
@@ -708,6 +710,13 @@ class Fn:
             if not name:
                 raise Unsupported("raise " + ast.dump(s))
             return f"{ind}throw PyErr.{name}\n"
+        if isinstance(s, ast.Assert):
+            i2 = ind + "  "
+            return (f"{ind}if (!{self.cond(s.test)}) then do\n{i2}throw PyErr.assertionError\n{ind}else do\n"
+                    + self.block(rest, k, i2, defined))
+        if (isinstance(s, ast.Expr) and isinstance(s.value, ast.Call) and isinstance(s.value.func, ast.Name)
+                and s.value.func.id == "print"):
+            return self.block(rest, k, ind, defined)          # writes to stdout only
         if isinstance(s, ast.Continue):
             if self.loop_k is None:
                 raise Unsupported("continue outside a loop")
@@ -1134,7 +1143,7 @@ INDEX_METHODS = [
 # the methods of `TinyFlux` that are translated (the list level: storage is the decoded view of its rows)
 DATABASE_METHODS = ["_reset_database", "_remove_helper", "count", "contains",
                     "__len__", "get_field_keys", "get_field_values", "get_measurements", "get_tag_keys", "get_timestamps",
-                    "search", "get"]
+                    "search", "get", "reindex", "remove_all"]
 INDEX_READERS = ("get_field_keys", "get_field_values", "get_measurements", "get_tag_keys", "get_tag_values", "get_timestamps")
 
 
